@@ -109,6 +109,13 @@ type gen struct {
 	// protected accounts are never chosen as the target of a random mutation
 	// (the bound balance token contract: deleting it deletes every balance)
 	protected map[common.Address]bool
+	// dead: self-destructed accounts that a mid-block IntermediateRoot/Finalise
+	// already removed; the same AccountDB silently ignores writes to them for the
+	// rest of the block, so the generator leaves them alone until the next block
+	dead map[common.Address]bool
+	// keepEmpty: never pass deleteEmptyObjects=true mid-block (unbound variant:
+	// the zero-address balance holder can be a dirty, still empty object)
+	keepEmpty bool
 }
 
 func newGen(rng *rand.Rand, salt string) *gen {
@@ -133,7 +140,14 @@ func (g *gen) addrOf(i int) common.Address {
 	return a
 }
 
-func (g *gen) randAddr() common.Address { return g.addrOf(g.rng.Intn(g.nAddr)) }
+func (g *gen) randAddr() common.Address {
+	for i := 0; ; i++ {
+		a := g.addrOf(g.rng.Intn(g.nAddr))
+		if !g.dead[a] || i > 50 {
+			return a
+		}
+	}
+}
 
 func (g *gen) existing() (common.Address, bool) {
 	if len(g.ref.Accts) == 0 {
@@ -204,6 +218,9 @@ func (g *gen) randVal(min, max int) []byte {
 }
 
 func (g *gen) setSlot(a common.Address, k, v []byte) {
+	if g.dead[a] {
+		return
+	}
 	acc := g.ensure(a)
 	g.noteKey(a, k)
 	g.emit(Op{K: "set", Addr: a, Key: k, Val: v})
@@ -211,6 +228,9 @@ func (g *gen) setSlot(a common.Address, k, v []byte) {
 }
 
 func (g *gen) delSlot(a common.Address, k []byte, viaEmpty bool) {
+	if g.dead[a] {
+		return
+	}
 	acc := g.ensure(a)
 	g.noteKey(a, k)
 	if viaEmpty {
@@ -258,6 +278,9 @@ func (g *gen) randCode(maxLen int) []byte {
 }
 
 func (g *gen) setCode(a common.Address, code []byte) {
+	if g.dead[a] {
+		return
+	}
 	acc := g.ensure(a)
 	g.emit(Op{K: "code", Addr: a, Val: code})
 	acc.Code, acc.HasCode = code, true
@@ -266,6 +289,9 @@ func (g *gen) setCode(a common.Address, code []byte) {
 // makeStorageEqual rewrites dst's storage to be exactly want (shared storage
 // tries between accounts / between roots).
 func (g *gen) makeStorageEqual(dst common.Address, want map[string][]byte) {
+	if g.dead[dst] {
+		return
+	}
 	acc := g.ensure(dst)
 	var del []string
 	for k := range acc.Storage {
@@ -297,12 +323,28 @@ func (g *gen) randAmt() *big.Int {
 
 // oneOp emits one random small mutation.
 func (g *gen) oneOp(older []*refState) {
-	r := g.rng.Intn(100)
+	r := g.rng.Intn(112)
+	switch {
+	case r >= 100 && r < 103:
+		g.iroot()
+		return
+	case r >= 103 && r < 109:
+		g.restorePattern()
+		return
+	case r >= 109:
+		g.scalarRestorePattern()
+		return
+	}
 	switch {
 	case r < 10:
-		g.ensure(g.randAddr())
+		if a := g.randAddr(); !g.dead[a] {
+			g.ensure(a)
+		}
 	case r < 16:
 		a := g.randAddr()
+		if g.dead[a] {
+			return
+		}
 		g.everAddr[a] = struct{}{}
 		if acc, ok := g.ref.Accts[a]; ok {
 			g.emit(Op{K: "inc", Addr: a})
@@ -434,7 +476,7 @@ func (g *gen) bulk(targetBytes int) {
 // block generates the operations of one block on top of ref (which it takes
 // over and advances to the expected post-state).
 func (g *gen) block(kind string, ref *refState, older []*refState) ([]Op, *refState) {
-	g.ref, g.ops, g.snaps = ref, nil, nil
+	g.ref, g.ops, g.snaps, g.dead = ref, nil, nil, map[common.Address]bool{}
 	switch kind {
 	case "small":
 		n := 1 + g.rng.Intn(30)
@@ -468,7 +510,7 @@ func (g *gen) block(kind string, ref *refState, older []*refState) ([]Op, *refSt
 // with the real code on a scratch store). Code blobs are stored under
 // keccak(code) in the same key space as trie nodes, so blob and node collide.
 func (g *gen) collideBlock(ref *refState, nodeOf func(map[string][]byte) []byte) ([]Op, *refState) {
-	g.ref, g.ops, g.snaps = ref, nil, nil
+	g.ref, g.ops, g.snaps, g.dead = ref, nil, nil, map[common.Address]bool{}
 	a := g.randAddr()
 	slots := map[string][]byte{}
 	for i := 0; i < 40; i++ {
@@ -492,4 +534,194 @@ func (g *gen) collideBlock(ref *refState, nodeOf func(map[string][]byte) []byte)
 	g.makeStorageEqual(a, slots)
 	g.ref.endBlock()
 	return g.ops, g.ref
+}
+
+// ---------------------------------------------------------------------------
+// mid-block roots and write patterns that return to earlier values
+
+// iroot emits a mid-block IntermediateRoot / Finalise (what the node does
+// between transactions): pending storage writes go into the storage tries,
+// self-destructed accounts disappear now, the journal (snapshots) is dropped.
+func (g *gen) iroot() {
+	n := uint64(g.rng.Intn(4)) // 0: IntermediateRoot(true) 1: IntermediateRoot(false) 2: Finalise(false) 3: Finalise(true)
+	if g.keepEmpty && (n == 0 || n == 3) {
+		n = 1
+	}
+	g.emit(Op{K: "iroot", N: n})
+	for a, v := range g.ref.Accts {
+		if v.Suicided {
+			delete(g.ref.Accts, a)
+			g.dead[a] = true
+		}
+	}
+	g.snaps = nil
+}
+
+func (g *gen) maybeIroot(force bool) bool {
+	if force || g.rng.Intn(3) > 0 {
+		g.iroot()
+		return true
+	}
+	return false
+}
+
+// writeSlot writes v (nil: remove) to slot k of a through one of the storage
+// entry points.
+func (g *gen) writeSlot(a common.Address, k, v []byte, via int) {
+	acc := g.ensure(a)
+	g.noteKey(a, k)
+	switch {
+	case v == nil && via == 2:
+		g.emit(Op{K: "del0", Addr: a, Key: k})
+	case v == nil:
+		g.emit(Op{K: "del", Addr: a, Key: k})
+	case via == 1 && len(k) == 32 && len(v) == 32:
+		g.emit(Op{K: "setstate", Addr: a, Key: k, Val: v})
+	default:
+		g.emit(Op{K: "set", Addr: a, Key: k, Val: v})
+	}
+	if v == nil {
+		delete(acc.Storage, string(k))
+	} else {
+		acc.Storage[string(k)] = v
+	}
+}
+
+// restorePattern: over 1-3 slots of one account (loaded from the committed
+// parent, or created in this block) write A->B->A, A->nil->A, nil->A->nil or
+// A->B->C->A with 1-3 intermediate roots between the steps.
+func (g *gen) restorePattern() {
+	kind := []string{"A-B-A", "A-nil-A", "nil-A-nil", "A-B-C-A"}[g.rng.Intn(4)]
+	var a common.Address
+	if e, ok := g.existing(); ok && g.rng.Intn(10) < 7 {
+		a = e
+	} else {
+		a = g.randAddr()
+	}
+	if g.dead[a] || g.protected[a] {
+		return
+	}
+	acc := g.ensure(a)
+	via := g.rng.Intn(3)
+	val := func() []byte {
+		if via == 1 {
+			return g.randVal(32, 32)
+		}
+		return g.randVal(1, 120)
+	}
+	nk := 1 + g.rng.Intn(3)
+	type slot struct {
+		k     []byte
+		steps [][]byte
+	}
+	var slots []slot
+	used := map[string]bool{}
+	for i := 0; i < nk; i++ {
+		var k, start []byte
+		if kind != "nil-A-nil" {
+			if ek, ok := g.someKey(acc); ok && !used[string(ek)] && g.rng.Intn(4) > 0 {
+				k, start = ek, acc.Storage[string(ek)] // value the block started with (or wrote earlier)
+			}
+		}
+		if k == nil {
+			k = g.randKey()
+			if via == 1 {
+				k = g.randVal(32, 32)
+			}
+			if _, exists := acc.Storage[string(k)]; exists || used[string(k)] {
+				continue
+			}
+			if kind != "nil-A-nil" {
+				start = val()
+				g.writeSlot(a, k, start, via) // A is created in this block
+			}
+		}
+		used[string(k)] = true
+		var steps [][]byte
+		switch kind {
+		case "A-B-A":
+			steps = [][]byte{val(), start}
+		case "A-nil-A":
+			steps = [][]byte{nil, start}
+		case "nil-A-nil":
+			steps = [][]byte{val(), nil}
+		case "A-B-C-A":
+			steps = [][]byte{val(), val(), start}
+		}
+		slots = append(slots, slot{k, steps})
+	}
+	if len(slots) == 0 {
+		return
+	}
+	g.emit(Op{K: "mark", Val: []byte(kind)})
+	if g.rng.Intn(2) == 0 {
+		g.iroot() // A itself goes through a root first (matters when A was created in this block)
+	}
+	nsteps := len(slots[0].steps)
+	forced := g.rng.Intn(nsteps - 1) // the gap that certainly gets a root
+	for st := 0; st < nsteps; st++ {
+		for _, sl := range slots {
+			if g.dead[a] {
+				return
+			}
+			g.writeSlot(a, sl.k, sl.steps[st], via)
+		}
+		if st < nsteps-1 {
+			g.maybeIroot(st == forced)
+		}
+	}
+	if g.rng.Intn(3) == 0 {
+		g.iroot()
+	}
+}
+
+// scalarRestorePattern: the same shape for balance, nonce and code.
+func (g *gen) scalarRestorePattern() {
+	a := g.randAddr()
+	if e, ok := g.existing(); ok && g.rng.Intn(2) == 0 {
+		a = e
+	}
+	if g.dead[a] || g.protected[a] {
+		return
+	}
+	g.everAddr[a] = struct{}{}
+	switch g.rng.Intn(3) {
+	case 0: // balance X -> Y -> X (X may be zero: the slot is removed again)
+		cur := new(big.Int).Set(g.ref.bal(a))
+		delta := g.randAmt()
+		g.emit(Op{K: "mark", Val: []byte("balance")})
+		if g.rng.Intn(2) == 0 {
+			g.emit(Op{K: "addbal", Addr: a, Amt: delta})
+			g.ref.Bal[a] = new(big.Int).Add(cur, delta)
+			g.iroot()
+			g.emit(Op{K: "subbal", Addr: a, Amt: delta})
+		} else {
+			g.emit(Op{K: "bal", Addr: a, Amt: new(big.Int).Add(cur, delta)})
+			g.ref.Bal[a] = new(big.Int).Add(cur, delta)
+			g.iroot()
+			g.emit(Op{K: "bal", Addr: a, Amt: cur})
+		}
+		g.ref.Bal[a] = cur
+	case 1: // nonce n -> m -> n
+		acc := g.ensure(a)
+		n := acc.Nonce
+		g.emit(Op{K: "mark", Val: []byte("nonce")})
+		g.emit(Op{K: "create", Addr: a, N: n + 1 + uint64(g.rng.Intn(50))})
+		g.iroot()
+		if g.dead[a] {
+			return
+		}
+		g.emit(Op{K: "create", Addr: a, N: n})
+		acc.Nonce = n
+	default: // code c1 -> c2 -> c1
+		acc := g.ensure(a)
+		if !acc.HasCode || len(acc.Code) == 0 {
+			g.setCode(a, g.randCode(4000))
+		}
+		c1 := acc.Code
+		g.emit(Op{K: "mark", Val: []byte("code")})
+		g.setCode(a, g.randVal(1, 3000))
+		g.iroot()
+		g.setCode(a, c1)
+	}
 }
